@@ -34,7 +34,7 @@ def key(case): return c06.key(case)
 def stats(cases): return c06.stats(cases)
 
 # ------------------------------------------------------------------ ensemble check against the exact CME
-def _cme_reference(spec, names, times, maxstates=400):
+def _cme_reference(spec, names, times, maxstates=400, V=None):
     import numpy as np
     from scipy.linalg import expm
     x0 = tuple(int(spec["x0"].get(s, 0)) for s in names)
@@ -43,7 +43,7 @@ def _cme_reference(spec, names, times, maxstates=400):
         x = todo.pop()
         xd = dict(zip(names, [float(v) for v in x]))
         for rx in spec["reactions"]:
-            a = c01.closed_form(spec, rx, "stoch", xd, 1.0)[0]
+            a = c01.closed_form(spec, rx, "stoch" if V is None else "stochvol", xd, 1.0 if V is None else V)[0]
             if a <= 0: continue
             y = tuple(x[i] + rx["products"].count(s) - rx["reactants"].count(s) for i, s in enumerate(names))
             if min(y) < 0: return None
@@ -67,11 +67,12 @@ def ensemble_impl(case):
     out = []
     py_seed_random(case["seed"])
     for k in range(case["N"]):
-        res = py_simulate_model(T, Model=M, stochastic=True, return_dataframe=False).py_get_result()
+        if case.get("volume") is None: res = py_simulate_model(T, Model=M, stochastic=True, return_dataframe=False).py_get_result()
+        else: res = py_simulate_model(T, Model=M, stochastic=True, volume=case["volume"], return_dataframe=False).py_get_result()
         out.append([[int(v) for v in row] for row in res])
     return {"names": names, "runs": out}
 
-def extra_checks(ctx):
+def extra_checks(ctx, volume_of=None):
     import numpy as np
     from scipy import stats as st
     from harness import common as C
@@ -94,11 +95,11 @@ def extra_checks(ctx):
     fails = []; tests = 0; samples = []
     for spec in nets:
         times = [0.0, 0.5, 1.0, 2.0, 4.0]
-        case = {"spec": spec, "times": times, "seed": rng.randint(1, 2**31), "N": N}
+        case = {"spec": spec, "times": times, "seed": rng.randint(1, 2**31), "N": N, "volume": (volume_of(rng) if volume_of else None)}
         r = C.run_impl(ctx["build"], "c05_ens", [case])[0]
         if not r or "runs" not in r:
             fails.append((case, "ensemble run failed: %s" % json.dumps(r)[:200])); continue
-        ref = _cme_reference(spec, r["names"], times)
+        ref = _cme_reference(spec, r["names"], times, V=case["volume"])
         if ref is None: continue
         idx, ps = ref; runs = r["runs"]
         for ti in range(1, len(times)):
